@@ -169,6 +169,21 @@ def generate(repo, out_dir):
             D[key + "_plus"] = (expr(m.group(6), env) if m.group(5) else None)
     except (Bad, OSError) as e:
         problems.append("gain.h: %s" % e)
+    # ---------------- default integrators of DipSourceMat: the 3-argument overload (used by the adjoint gain classes) and om_assemble -DSM
+    try:
+        a = strip_comments(open(os.path.join(repo, "OpenMEEG", "src", "assembleSourceMat.cpp")).read())
+        m3 = re.search(r"DipSourceMat\s*\(\s*const\s+Geometry\s*&\s*geo\s*,\s*const\s+Matrix\s*&\s*dipoles\s*,\s*const\s+std::string\s*&\s*domain_name\s*\)\s*\{\s*return\s+DipSourceMat\s*\(\s*geo\s*,\s*dipoles\s*,\s*Integrator\s*\(([^()]*)\)\s*,\s*domain_name\s*\)\s*;\s*\}", a)
+        if not m3: raise Bad("3-argument DipSourceMat overload not recognised")
+        D["dsm_default"] = [x.strip() for x in m3.group(1).split(",")]
+        t = strip_comments(open(os.path.join(repo, "apps", "assemble.cpp")).read())
+        ml = re.search(r"const\s+unsigned\s+integration_levels\s*=\s*check_no_adapt\s*\([^;]*\)\s*\?\s*(\d+)\s*:\s*(\d+)\s*;", t)
+        mt = re.search(r"DipSourceMat\s*\(\s*geo\s*,\s*dipoles\s*,\s*Integrator\s*\(([^()]*)\)\s*,\s*domain_name\s*\)", t)
+        if not ml or not mt: raise Bad("om_assemble -DSM: integrator not recognised")
+        D["dsm_tool"] = [ml.group(2) if x.strip() == "integration_levels" else x.strip() for x in mt.group(1).split(",")]
+        for k in ("dsm_default", "dsm_tool"):
+            if len(D[k]) != 3 or not all(re.match(r"^[0-9.eE+-]+$", x) for x in D[k]): raise Bad("%s integrator arguments %r are not three literals" % (k, D[k]))
+    except (Bad, OSError) as e:
+        problems.append("default integrators: %s" % e)
     # ---------------- emit
     def opt(x): return "Some (%s)" % x if x is not None else "None"
     def tup(l): return "(" + ", ".join(l) + ")"
@@ -204,6 +219,10 @@ def generate(repo, out_dir):
               "Definition gen_rhs_row_meg (i me mm n : Z) : Z := %s." % D["rhs_row_meg"],
               "Definition gen_both_eeg_range (me mm n : Z) : Z * Z * Z * Z := %s." % tup(D["both_eeg_range"]),
               "Definition gen_both_meg_range (me mm n : Z) : Z * Z * Z * Z := %s." % tup(D["both_meg_range"]), ""]
+    if "dsm_default" in D and "dsm_tool" in D:
+        L += ["(* Integrator(order, levels, tolerance) of the 3-argument DipSourceMat overload (adjoint gain classes) and of om_assemble -DSM (direct path), as written *)",
+              "Definition gen_dsm_default_integrator : list string := [%s]." % "; ".join('"%s"%%string' % x for x in D["dsm_default"]),
+              "Definition gen_dsm_tool_integrator : list string := [%s]." % "; ".join('"%s"%%string' % x for x in D["dsm_tool"]), ""]
     # Problems are emitted into the generated file (theorem translator_clean of Properties_C04 then fails) instead of being
     # returned: core.Check.prepare reports returned problems in *every* property's check, and a change of gain.h must not
     # raise alarms for unrelated properties.
